@@ -1,12 +1,32 @@
-(* C07 - SsbScript is a lossless spelling of SSB ops (statement-list level). *)
-From ES Require Import Base Ssb.Param Ssb.Tables Ssb.Machine Script.Model.
+(* C07 - SsbScript is a lossless spelling of SSB ops (statement-list level).
+   Property theorems only; proofs live in Script/Proofs.v and Script/Renumber.v. *)
+From ES Require Import Base Ssb.Param Ssb.Cfg Ssb.Tables Ssb.Machine Script.Model Script.Proofs Script.Renumber.
 
-(* non-vacuity / regression example: two routines, a cross-routine jump, two labels on one op *)
+(* Printing a routine set as SsbScript statements and compiling those statements gives the same
+   routine set in position numbering - for every routine set with unique offsets whose jump-carrying
+   ops have the table's arity and an integer target that is the offset of an op of the set. *)
+Theorem C07_roundtrip (P : program) :
+  NoDup (map off (all_ops P)) ->
+  forallb (op_wf_script (all_ops P)) (all_ops P) = true ->
+  exists rs, print_script P = Ok rs /\ compile_script rs = Ok (renumber P).
+Proof. exact (script_roundtrip P). Qed.
+Print Assumptions C07_roundtrip.
+
+(* ... and position numbering keeps the machine's flow graph and the routine entries: every jump
+   parameter of the result denotes the op that corresponds to the input's target *)
+Theorem C07_renumber_same_flow (P : program) :
+  forallb (op_wf_script (all_ops P)) (all_ops P) = true ->
+  cfg_of_ssb (renumber P) = cfg_of_ssb P /\ ssb_entries (renumber P) = ssb_entries P.
+Proof. exact (renumber_same_cfg P). Qed.
+Print Assumptions C07_renumber_same_flow.
+
+(* non-vacuity / regression example: two routines, a cross-routine jump, a self loop *)
 Example C07_example :
   let P := [[mkOp 3 "Branch" [PInt 1; PInt 2; PInt 9]; mkOp 5 "a" []; mkOp 9 "Jump" [PInt 9]];
             [mkOp 12 "Call" [PInt 5]; mkOp 13 "Return" []]]%Z%string in
+  forallb (op_wf_script (all_ops P)) (all_ops P) = true /\
   match print_script P with
   | Ok rs => compile_script rs = Ok (renumber P)
   | Err _ => False
   end.
-Proof. vm_compute. reflexivity. Qed.
+Proof. vm_compute. split; reflexivity. Qed.
